@@ -15,6 +15,10 @@ pub(crate) enum FilesystemFacade {
 
     #[cfg(test)]
     Mock(Arc<MockFilesystem>),
+
+    /// Caller-supplied filesystem for out-of-tree verification harnesses.
+    #[cfg(folo_verif)]
+    Verif(std::sync::Arc<dyn Filesystem>),
 }
 
 impl FilesystemFacade {
@@ -26,6 +30,11 @@ impl FilesystemFacade {
     pub(crate) fn from_mock(mock: MockFilesystem) -> Self {
         Self::Mock(Arc::new(mock))
     }
+
+    #[cfg(folo_verif)]
+    pub(crate) fn from_verif(filesystem: std::sync::Arc<dyn Filesystem>) -> Self {
+        Self::Verif(filesystem)
+    }
 }
 
 impl Filesystem for FilesystemFacade {
@@ -34,6 +43,8 @@ impl Filesystem for FilesystemFacade {
             Self::Target(filesystem) => filesystem.get_cpuinfo_contents(),
             #[cfg(test)]
             Self::Mock(mock) => mock.get_cpuinfo_contents(),
+            #[cfg(folo_verif)]
+            Self::Verif(inner) => inner.get_cpuinfo_contents(),
         }
     }
 
@@ -42,6 +53,8 @@ impl Filesystem for FilesystemFacade {
             Self::Target(filesystem) => filesystem.get_numa_node_cpulist_contents(node_index),
             #[cfg(test)]
             Self::Mock(mock) => mock.get_numa_node_cpulist_contents(node_index),
+            #[cfg(folo_verif)]
+            Self::Verif(inner) => inner.get_numa_node_cpulist_contents(node_index),
         }
     }
 
@@ -50,6 +63,8 @@ impl Filesystem for FilesystemFacade {
             Self::Target(filesystem) => filesystem.get_possible_cpus_contents(),
             #[cfg(test)]
             Self::Mock(mock) => mock.get_possible_cpus_contents(),
+            #[cfg(folo_verif)]
+            Self::Verif(inner) => inner.get_possible_cpus_contents(),
         }
     }
 
@@ -58,6 +73,8 @@ impl Filesystem for FilesystemFacade {
             Self::Target(filesystem) => filesystem.get_online_cpus_contents(),
             #[cfg(test)]
             Self::Mock(mock) => mock.get_online_cpus_contents(),
+            #[cfg(folo_verif)]
+            Self::Verif(inner) => inner.get_online_cpus_contents(),
         }
     }
 
@@ -66,6 +83,8 @@ impl Filesystem for FilesystemFacade {
             Self::Target(filesystem) => filesystem.get_cpu_online_contents(cpu_index),
             #[cfg(test)]
             Self::Mock(mock) => mock.get_cpu_online_contents(cpu_index),
+            #[cfg(folo_verif)]
+            Self::Verif(inner) => inner.get_cpu_online_contents(cpu_index),
         }
     }
 
@@ -74,6 +93,8 @@ impl Filesystem for FilesystemFacade {
             Self::Target(filesystem) => filesystem.get_numa_node_possible_contents(),
             #[cfg(test)]
             Self::Mock(mock) => mock.get_numa_node_possible_contents(),
+            #[cfg(folo_verif)]
+            Self::Verif(inner) => inner.get_numa_node_possible_contents(),
         }
     }
 
@@ -82,6 +103,8 @@ impl Filesystem for FilesystemFacade {
             Self::Target(filesystem) => filesystem.get_proc_self_status_contents(),
             #[cfg(test)]
             Self::Mock(mock) => mock.get_proc_self_status_contents(),
+            #[cfg(folo_verif)]
+            Self::Verif(inner) => inner.get_proc_self_status_contents(),
         }
     }
 
@@ -90,6 +113,8 @@ impl Filesystem for FilesystemFacade {
             Self::Target(filesystem) => filesystem.get_proc_self_cgroup(),
             #[cfg(test)]
             Self::Mock(mock) => mock.get_proc_self_cgroup(),
+            #[cfg(folo_verif)]
+            Self::Verif(inner) => inner.get_proc_self_cgroup(),
         }
     }
 
@@ -98,6 +123,8 @@ impl Filesystem for FilesystemFacade {
             Self::Target(filesystem) => filesystem.get_v1_cgroup_cpu_quota(cgroup_name),
             #[cfg(test)]
             Self::Mock(mock) => mock.get_v1_cgroup_cpu_quota(cgroup_name),
+            #[cfg(folo_verif)]
+            Self::Verif(inner) => inner.get_v1_cgroup_cpu_quota(cgroup_name),
         }
     }
 
@@ -106,6 +133,8 @@ impl Filesystem for FilesystemFacade {
             Self::Target(filesystem) => filesystem.get_v1_cgroup_cpu_period(cgroup_name),
             #[cfg(test)]
             Self::Mock(mock) => mock.get_v1_cgroup_cpu_period(cgroup_name),
+            #[cfg(folo_verif)]
+            Self::Verif(inner) => inner.get_v1_cgroup_cpu_period(cgroup_name),
         }
     }
 
@@ -114,6 +143,8 @@ impl Filesystem for FilesystemFacade {
             Self::Target(filesystem) => filesystem.get_v2_cgroup_cpu_quota_and_period(cgroup_name),
             #[cfg(test)]
             Self::Mock(mock) => mock.get_v2_cgroup_cpu_quota_and_period(cgroup_name),
+            #[cfg(folo_verif)]
+            Self::Verif(inner) => inner.get_v2_cgroup_cpu_quota_and_period(cgroup_name),
         }
     }
 }
@@ -125,6 +156,8 @@ impl Debug for FilesystemFacade {
             Self::Target(inner) => inner.fmt(f),
             #[cfg(test)]
             Self::Mock(inner) => inner.fmt(f),
+            #[cfg(folo_verif)]
+            Self::Verif(inner) => inner.fmt(f),
         }
     }
 }
